@@ -1,7 +1,7 @@
 SPECIFICATION TraceSpec
 CONSTANTS SmallIds = {} Widths = {}
   Texts <- CTexts HRs <- CHRs
-INVARIANTS TypeOK Refines OnceOnly GoneNotified
-PROPERTIES DeliveredRight OneHandler FiniAll ReserveUnique DefaultFollows
+INVARIANTS TypeOK Refines OnceOnly GoneNotified HeldApart
+PROPERTIES DeliveredRight OneHandler FiniAll SnapshotSilent ReserveUnique DefaultFollows
 POSTCONDITION TraceAccepted
 CHECK_DEADLOCK FALSE
